@@ -248,11 +248,30 @@ def run(code, stack: List[RV], env: Env, fuel: List[int] = None) -> List[RV]:
                 break
     elif p == 'ITER':
         (l,) = pop()
-        if l.ty['prim'] != 'list':
+        if l.ty['prim'] == 'map':
+            kt, vt = l.ty['args']
+            for k, v in l.abs[1:]:
+                push(RV(('pair', k, v), T('pair', kt, vt)))
+                stack = run(args[0], stack, env, fuel)
+        elif l.ty['prim'] in ('list', 'set'):
+            for x in l.abs[1:]:
+                push(RV(x, l.ty['args'][0]))
+                stack = run(args[0], stack, env, fuel)
+        else:
             raise Unsupported('ITER on ' + l.ty['prim'])
-        for x in l.abs[1:]:
-            push(RV(x, l.ty['args'][0]))
+    elif p == 'MAP' and stack and stack[0].ty['prim'] == 'map':
+        (l,) = pop()
+        kt, vt = l.ty['args']
+        out, nvt = [], None
+        for k, v in l.abs[1:]:
+            push(RV(('pair', k, v), T('pair', kt, vt)))
             stack = run(args[0], stack, env, fuel)
+            (y,) = pop()
+            out.append((k, y.abs))
+            nvt = y.ty
+        if nvt is None:
+            nvt = P_map_result_type(args[0], T('pair', kt, vt), stack, env)
+        push(RV(('map',) + tuple(out), T('map', kt, nvt)))
     elif p == 'MAP':
         (l,) = pop()
         if l.ty['prim'] != 'list':
